@@ -150,6 +150,9 @@ theorem keys_distinct (a b : Name) (h : a ≠ b) :
 /-- Tie to the source: every getter builds the key constructor its setter builds (regenerated fact). -/
 theorem desc_keys_match : ∀ p ∈ Gen.descKeys, p.2.1 = p.2.2.2.1 ∧ p.2.2.1 = p.2.2.2.2 := EE.Tie.desc_keys_match
 
+/-- Tie: different kinds build different key constructors (regenerated fact). -/
+theorem desc_keys_distinct : (Gen.descKeys.map (·.2.1)).Nodup ∧ (Gen.descKeys.map (·.2.2.1)).Nodup := EE.Tie.desc_keys_distinct
+
 /-! Non-vacuity: a configuration where a binary descriptor is registered and used, and a sibling
 kind keeps its default. -/
 example :
